@@ -146,6 +146,17 @@ func TestC18Builtins(t *testing.T) {
 				f = fail("C18", "from-context", "derived", "FromContext(derived from s%d) = %v, %v", tag, fs, err)
 			}
 			cancel()
+			// a derived context that is done on its own account (a sub-operation's cancel or deadline)
+			// still leads to the scope, which is open
+			if fs, err := godi.FromContext(dctx); err != nil || fs != sc {
+				f = fail("C18", "from-context", "derived-done", "FromContext(a cancelled context derived from the open scope s%d) = %v, %v; want the scope", tag, fs, err)
+			}
+			tctx, tcancel := context.WithTimeout(ctx, time.Nanosecond)
+			<-tctx.Done()
+			if fs, err := godi.FromContext(tctx); err != nil || fs != sc {
+				f = fail("C18", "from-context", "derived-expired", "FromContext(an expired context derived from the open scope s%d) = %v, %v; want the scope", tag, fs, err)
+			}
+			tcancel()
 			// values: own or inherited through nil contexts
 			for _, a := range x.R.Ancestors(tag) {
 				ar := x.R.Scopes[a]
